@@ -182,6 +182,11 @@ func (n *lazyNode) tryAry() bool {
 // isNull reports a JSON null: a nil node (decoded from a document) or a node
 // without raw bytes (a null supplied as a patch value).
 func (n *lazyNode) isNull() bool {
+	// a null duplicated by copy carries the literal as raw bytes
+	if n != nil && n.which == eRaw && n.raw != nil && bytes.Equal(*n.raw, []byte("null")) {
+		return true
+	}
+
 	return n == nil || (n.which == eRaw && n.raw == nil)
 }
 
